@@ -611,10 +611,10 @@ impl Worker {
         self.tx.send(r).unwrap();
         self.rx.recv().expect("worker died")
     }
-    /// None when the worker does not answer within 3 s (it hangs: e.g. a lock kept across an await)
+    /// None when the worker does not answer within 15 s (it hangs: e.g. a lock kept across an await)
     pub fn ask_timeout(&self, r: Req) -> Option<Resp> {
         self.tx.send(r).unwrap();
-        self.rx.recv_timeout(std::time::Duration::from_secs(3)).ok()
+        self.rx.recv_timeout(std::time::Duration::from_secs(15)).ok()
     }
 }
 
